@@ -130,6 +130,7 @@ def mcmc_case(draw, tier, holes=False, maxN=None):
                                 min_topos=1, max_topos=3, min_motifs=6, min_rounds=2, topo_pool=pool))
     net["node_order"] = draw(st.sampled_from(["sorted", "sorted", "by_motifs"]))
     net["jd_type"] = draw(st.sampled_from(["tuple", "tuple", "list", "ndarray"]))
+    net["tagged"] = draw(st.booleans())
     L = draw(st.sampled_from([0, 0, 1, 2, 3, 5, 10, 25, 60]))
     nedges = sum(len(NC.motif_edges(net["topos"][ti]["kind"], vs)) for ti, vs in net["motifs"])
     if nedges <= 40 and draw(st.integers(0, 5)) == 5:
@@ -158,7 +159,15 @@ def mcmc_case(draw, tier, holes=False, maxN=None):
 
 def _plain(d):
     """node data with array-like annotations turned into tuples (so that snapshots compare with ==)."""
-    return {k: (tuple(int(x) for x in v.tolist()) if hasattr(v, "tolist") else copy.deepcopy(v)) for k, v in d.items()}
+    out = {}
+    for k, v in d.items():
+        if hasattr(v, "tolist"):
+            out[k] = tuple(int(x) for x in v.tolist())
+        elif isinstance(v, (list, tuple)):
+            out[k] = tuple(v)
+        else:
+            out[k] = v  # scalars, strings, identity-compared objects: kept by reference
+    return out
 
 
 def snapshot(G):
